@@ -136,7 +136,17 @@ func inputsFor(pc *patCase, rng *rand.Rand, exhLen, nDirected int) [][]rune {
 	}
 	sm := &gen.Sampler{R: rng, Alpha: alpha, Class: func(n *gen.Node, ch rune) bool { return ref.ClassMatch(n, ch, n.E.IC, d) }}
 	for k := 0; k < nDirected; k++ {
-		add(sm.Directed(pc.pat.AST, gen.Decorations))
+		d := sm.Directed(pc.pat.AST, gen.Decorations)
+		add(d)
+		if k%3 == 0 && len(d) > 1 {
+			// the same text cut short at either end: the input ends (or begins) in the middle of
+			// what the pattern expects next
+			cut := 1 + rng.Intn(len(d)-1)
+			add(d[:cut])
+			if k%6 == 0 {
+				add(d[cut:])
+			}
+		}
 	}
 	return out
 }
